@@ -8,6 +8,16 @@ def make(*args, **kwargs):
     return faclog.call("vfact.make", args, kwargs)
 
 
+def give_list(*args, **kwargs):
+    """A factory whose product is a plain list that happens to hold a (quoted) definition: data, not a to-do."""
+    return faclog.call("vfact.give_list", args, kwargs, product=[1, {"__type__": "vfact.boom", "quoted": True}, "x"])
+
+
+def give_quoted(*args, **kwargs):
+    """A factory whose product is a mapping that looks like a definition (e.g. a template to be stored)."""
+    return faclog.call("vfact.give_quoted", args, kwargs, product={"__type__": "vfact.boom", "quoted": True})
+
+
 def strict(a, b=2, *, nid, c=None):
     return faclog.call("vfact.strict", (a, b), {"nid": nid, "c": c})
 
@@ -50,6 +60,18 @@ boom_os = _raiser(OSError, 2, "no such file")
 boom_lookup = _raiser(LookupError, "lookup")
 boom_runtime = _raiser(RuntimeError, "runtime")
 boom_notimpl = _raiser(NotImplementedError)
+
+
+_PREPARED = []
+
+
+def boom_cfg(*args, **kwargs):
+    """Raises one prepared, location-less ConfigurationError object every time it is called."""
+    from cobald.daemon.config.mapping import ConfigurationError
+
+    if not _PREPARED:
+        _PREPARED.append(ConfigurationError(what="backend not available"))
+    raise _PREPARED[0]
 
 
 def boom(*args, **kwargs):
